@@ -138,6 +138,16 @@ impl SlidingLogState {
     }
 }
 
+/// Converts seconds to a `Duration`, saturating instead of panicking for values that do not fit
+/// (bucket durations up to `Duration::MAX` are valid configuration).
+fn secs_saturating(secs: f64) -> Duration {
+    if !(secs < Duration::MAX.as_secs_f64()) {
+        Duration::MAX
+    } else {
+        Duration::from_secs_f64(secs.max(0.0))
+    }
+}
+
 /// Sliding window counter rate limiter state.
 ///
 /// Uses weighted averaging between current and previous buckets.
@@ -232,7 +242,7 @@ impl SlidingCounterState {
         if previous == 0.0 {
             // No previous bucket contribution, need to wait for bucket rotation
             let remaining = self.bucket_duration.as_secs_f64() * (1.0 - current_ratio);
-            return Duration::from_secs_f64(remaining);
+            return secs_saturating(remaining);
         }
 
         // weighted = previous * (1 - ratio) + current = limit - epsilon
@@ -247,10 +257,10 @@ impl SlidingCounterState {
         } else if target_ratio >= 1.0 {
             // Need to wait for bucket rotation
             let remaining = self.bucket_duration.as_secs_f64() * (1.0 - current_ratio);
-            Duration::from_secs_f64(remaining)
+            secs_saturating(remaining)
         } else {
             let wait_ratio = target_ratio - current_ratio;
-            Duration::from_secs_f64(wait_ratio * self.bucket_duration.as_secs_f64())
+            secs_saturating(wait_ratio * self.bucket_duration.as_secs_f64())
         }
     }
 
